@@ -90,11 +90,16 @@ def appendsOf (sn : σ) (c c' : Conn α) : List (Append σ α) :=
   (List.range c'.nextSid).flatMap fun sid =>
     (newLog c c' sid).map fun x => { sess := sn, stream := sid, p := x.map payloadOf, check := true }
 
+/-- the evictions of the record: the streams whose log the store now holds from a later index on -/
+def purgesOf (sn : σ) (c c' : Conn α) : List (σ × Nat × Nat) :=
+  (List.range c'.nextSid).flatMap fun sid => if c'.purged sid = c.purged sid then [] else [(sn, sid, c'.purged sid)]
+
 /-- the observation of one record: the connection went from `c` to `c'` -/
 def obsOf (sn : σ) (og : Origin) (c c' : Conn α) : Obs σ α :=
   { sess := sn, origin := og, opened := openedOf c c', appends := appendsOf sn c c',
     sent := (sentM c c').map toSent,
-    snaps := [{ sess := sn, newProto := false, rows := c'.streams.map rowOf }] }
+    snaps := [{ sess := sn, newProto := false, rows := c'.streams.map rowOf }],
+    purges := purgesOf sn c c' }
 
 /-- the observation trace of a run cut into records -/
 def traceOf (sn : σ) : Conn α → List (List (Label α)) → List (Obs σ α)
